@@ -36,6 +36,18 @@ theorem accepted_in_range_from_bytes (bs : List Nat) (j : Json) (h : fromBytes b
   obtain ⟨_, ht⟩ := Rs1090.Props.C01.fromBytes_prefix bs _ h
   exact ⟨accepted_in_range _ j ht, numbers_finite _ j ht⟩
 
+/-- the 6-bit character set of Annex 10 Vol IV table 3-9 (as the decoder prints it: `#` for every unassigned
+    code), written here from the standard: 1–26 ↦ A–Z, 32 ↦ space, 48–57 ↦ 0–9 -/
+def ia5Spec (c : Nat) : Nat :=
+  if 1 ≤ c ∧ c ≤ 26 then 64 + c else if c = 32 then 32 else if 48 ≤ c ∧ c ≤ 57 then c else 35
+
+/-- **The two regenerated copies of `CHAR_LOOKUP` (bds08.rs, bds21.rs) are that table, entry by entry** (audit e,
+    F8): the charset lemmas of `Proofs/Decode/Bds08|20|21` constrain the alphabet only; this pins every one of
+    the 64 entries, the unassigned codes included. -/
+theorem char_tables_literal :
+    Gen.Chars.charLookup08 = (List.range 64).map ia5Spec ∧ Gen.Chars21.charLookup21 = Gen.Chars.charLookup08 := by
+  decide
+
 /-- the table really constrains something: the keys of the property's quantities are in it -/
 example : (specFor (key! "track").id).isSome ∧ (specFor (key! "heading").id).isSome ∧
     (specFor (key! "roll").id).isSome ∧ (specFor (key! "Mach").id).isSome ∧
